@@ -10,14 +10,22 @@ per file ("skeleton") and compares it with the skeleton of the pinned tree (`too
 
   gen_skeleton.py <repo> <gen_fns report.json> [--pin] [--out changes.json]
 
-Tolerated without an obligation: an added inherent or free function whose name is new in the whole crate (no existing
-code can reach it without its own text changing, and it cannot shadow a trait method). Every other difference is
+Tolerated without an obligation: an added inherent or free function whose name is an identifier that occurs nowhere in the
+pinned sources and is not a method of a std trait the crate's types implement (no existing code can reach it without its
+own text changing, and it cannot take precedence over a trait method for the crate's clients). Every other difference is
 reported, by file; `tools/check.py` turns it into a broken obligation of the properties that file concerns."""
 import sys, os, json, re
 sys.path.insert(0, os.path.dirname(os.path.abspath(__file__)))
 import rustparse
 
 PIN = os.path.join(os.path.dirname(os.path.abspath(__file__)), 'pinned_skeleton.json')
+# methods of the std traits the crate's types implement (or get by blanket impls): an inherent method of such a name would take
+# precedence in method-call syntax for the crate's clients
+STD_METHODS = set('''clone clone_from eq ne default fmt into_iter extend extend_one extend_reserve from_iter to_owned clone_into into from try_into
+try_from borrow borrow_mut as_ref as_mut type_id to_string next size_hint count last advance_by nth step_by chain zip intersperse map for_each
+filter filter_map enumerate peekable skip_while take_while map_while skip take scan flat_map flatten fuse inspect by_ref collect partition
+try_fold try_for_each fold reduce try_reduce all any find find_map try_find position rposition max min max_by_key max_by min_by_key min_by rev
+unzip copied cloned cycle sum product cmp partial_cmp lt le gt ge is_sorted next_back nth_back rfold rfind len is_empty hash'''.split())
 PRIM = {'u8', 'u16', 'u32', 'u64', 'u128', 'usize', 'i8', 'i16', 'i32', 'i64', 'i128', 'isize', 'f32', 'f64', 'char', 'bool', 'str'}
 DROP_ATTRS = ('inline', 'allow', 'must_use', 'doc', 'deprecated', 'warn', 'deny(missing_docs', 'rustfmt')
 
@@ -145,9 +153,13 @@ def main():
     repo = sys.argv[1]; report = json.load(open(sys.argv[2]))
     sk, names = skeleton(repo, report)
     if '--pin' in sys.argv:
-        json.dump({'skeleton': sk, 'fn_names': sorted(set(n for f in names.values() for _, n in f))}, open(PIN, 'w'), indent=0)
+        idents = set()
+        for dp, _, fns in os.walk(os.path.join(repo, 'src')):
+            for fn in fns:
+                if fn.endswith('.rs'): idents |= set(t.val for t in rustparse.lex(open(os.path.join(dp, fn)).read()) if t.kind == 'ident')
+        json.dump({'skeleton': sk, 'fn_names': sorted(set(n for f in names.values() for _, n in f)), 'idents': sorted(idents)}, open(PIN, 'w'), indent=0)
         print('gen_skeleton: pinned %d files, %d items' % (len(sk), sum(len(v) for v in sk.values()))); return 0
-    pin = json.load(open(PIN)); psk = pin['skeleton']; pnames = set(pin['fn_names'])
+    pin = json.load(open(PIN)); psk = pin['skeleton']; pnames = set(pin['fn_names']); pidents = set(pin.get('idents', []))
     changes = {}
     for f in sorted(set(sk) | set(psk)):
         cur = list(sk.get(f, [])); old = list(psk.get(f, []))
@@ -167,7 +179,7 @@ def main():
             m = re.search(r'(?:^|:: )(?:#\[[^\]]*\] )*(?:pub (?:\( [a-z :]+ \) )?)?(?:const )?fn (\w+)', x)
             head = x.split(' :: ')
             in_trait_impl = any(re.match(r'(?:#\[[^\]]*\] )*impl\b.*\bfor\b', h) for h in head[:-1]) or any(re.match(r'(?:#\[[^\]]*\] )*(?:pub )?trait\b', h) for h in head[:-1])
-            if m and m.group(1) not in pnames and not in_trait_impl and x.rstrip().endswith('}'): continue
+            if m and m.group(1) not in pnames and m.group(1) not in STD_METHODS and m.group(1) not in pidents and not in_trait_impl and x.rstrip().endswith('}'): continue
             real_added.append(x)
         if real_added or removed:
             changes[f] = {'added': [a[:400] for a in real_added[:12]], 'removed': [r[:400] for r in removed[:12]], 'n_added': len(real_added), 'n_removed': len(removed)}
